@@ -324,9 +324,10 @@ def drum_dynamic(req, budget=60000):
                     stack.pop()
             elif t == T["LOOP_BREAK"]:
                 if not stack: raise Bad()
-                j = match_end(evs, i + 1)
-                cnt = stack[-1][1] if stack[-1][1] is not None else evs[j][1]
-                if cnt == 1:
+                # the break is taken on the last pass of a loop that runs at least twice (on the first pass the
+                # count is not yet known: a loop with count <= 1 plays its whole body once)
+                if stack[-1][1] == 1:
+                    j = match_end(evs, i + 1)
                     stack.pop()
                     i = j
             elif t == T["JUMP"]:
